@@ -151,7 +151,7 @@ def position_label_uses(prog, res, modules=None, functions=None):
     done = set()
     while work:
         fi, seed_tags, param_kinds, depth = work.pop(0)
-        key = (fi.qn, tuple(sorted(seed_tags.items())), tuple(sorted(param_kinds.items())))
+        key = (fi.qn, repr(sorted(seed_tags.items(), key=repr)), repr(sorted(param_kinds.items(), key=repr)))
         if key in done:
             continue
         done.add(key)
